@@ -9,3 +9,5 @@ pub mod cppgen;
 pub mod c05gen;
 pub mod c05inv;
 pub mod cgen;
+pub mod scan;
+pub mod builder_ops;
